@@ -12,6 +12,7 @@ import (
 	"reflect"
 	"sort"
 	"strings"
+	"sync"
 	"sync/atomic"
 
 	"verif/core"
@@ -67,24 +68,39 @@ type sim struct {
 	usedFail  bool
 	stopped   bool
 	log       []string
+
+	dirView    map[string][]byte // content of the directory as last read (nil = unknown)
+	trustHooks bool              // a call that reached no write point leaves dirView valid
 }
 
 var fixedKey = crypto.GenPrivKeyEd25519FromSecret([]byte("c03 fixed validator key"))
 var fixedPub = fixedKey.PubKey()
 
-func (s *sim) cleanDir() {
-	fis, err := ioutil.ReadDir(s.w.dir)
+func listDir(dir string) []string {
+	f, err := os.Open(dir)
 	if err != nil {
 		core.Fatal("read dir: %v", err)
 	}
-	for _, fi := range fis {
-		os.RemoveAll(filepath.Join(s.w.dir, fi.Name()))
+	names, err := f.Readdirnames(-1)
+	f.Close()
+	if err != nil {
+		core.Fatal("read dir: %v", err)
+	}
+	sort.Strings(names)
+	return names
+}
+
+func (s *sim) cleanDir() {
+	s.dirView = nil
+	for _, n := range listDir(s.w.dir) {
+		os.RemoveAll(filepath.Join(s.w.dir, n))
 	}
 }
 
 // createFile is what `init` does (gemmill/config genPrivFile): Gen + SetFile + Save.
 func (s *sim) createFile(fault string) (err error) {
 	w := s.w
+	s.dirView = nil
 	w.points, w.fired, w.dead = w.points[:0], false, false
 	if strings.HasPrefix(fault, "crash@") {
 		w.armCrash = faultPoint(fault)
@@ -220,15 +236,33 @@ func (s *sim) relation(r *reqSpec) string {
 	return "same-hrs-other-bytes"
 }
 
-// exec performs one step on the real signer and reports what happened.
-func (s *sim) exec(st step) (o obs) {
+// callRes is what one call of SignVote/SignProposal (with at most one armed
+// fault) showed, before anything is decided about what happens afterwards.
+type callRes struct {
+	req      int
+	armed    string // "none", "crash@<p>", "fail@<p>"
+	rel      string
+	err      error
+	panicV   *viol
+	died     bool // the armed process death fired
+	fired    bool
+	filled   bool
+	valid    bool
+	points   []string
+	durKnown bool
+	durable  bool
+	why      string
+}
+
+// call runs the signing request once on the real signer.
+func (s *sim) call(req int, armed string) *callRes {
 	if s.stopped {
 		core.Fatal("step on a stopped simulation")
 	}
 	atomic.AddInt64(&s.c.stepsRun, 1)
-	r := reqs[st.Req]
+	r := reqs[req]
 	w := s.w
-	rel := s.relation(r)
+	cr := &callRes{req: req, armed: armed, rel: s.relation(r)}
 	var call func() error
 	var sigOf func() crypto.Signature
 	if r.Kind == 0 {
@@ -241,66 +275,89 @@ func (s *sim) exec(st step) (o obs) {
 		sigOf = func() crypto.Signature { return v.Signature }
 	}
 	w.points, w.fired, w.dead = w.points[:0], false, false
-	pt := faultPoint(st.Fault)
-	isCrash := strings.HasPrefix(st.Fault, "crash@")
-	isFail := strings.HasPrefix(st.Fault, "fail@")
-	if isCrash && pt != "done" {
-		w.armCrash = pt
+	if strings.HasPrefix(armed, "crash@") {
+		w.armCrash = faultPoint(armed)
+	} else if strings.HasPrefix(armed, "fail@") {
+		w.armFail = faultPoint(armed)
 	}
-	if isFail {
-		w.armFail = pt
-	}
-	var err error
-	panicked, val, stack := core.Try(func() { err = call() })
+	panicked, val, stack := core.Try(func() { cr.err = call() })
 	w.armCrash, w.armFail = "", ""
-	o.points = append([]string{}, w.points...)
-	fired := w.fired
-	outcome := ""
+	cr.points = append([]string{}, w.points...)
+	cr.fired = w.fired
+	if !(s.trustHooks && len(cr.points) == 0) {
+		s.dirView = nil
+	}
 	if panicked {
 		if _, ok := val.(crashSentinel); !ok {
-			o.terminal = append(o.terminal, viol{Sig: map[string]string{"site": core.PanicSite(stack), "kind": "panic", "fault": st.Fault},
-				Detail: fmt.Sprintf("signing %s panicked: %v", r.name, core.FirstLine(val))})
-			o.class = fmt.Sprintf("%s/%s/%s/panic", kindNames[r.Kind], rel, st.Fault)
+			cr.panicV = &viol{Sig: map[string]string{"site": core.PanicSite(stack), "kind": "panic", "fault": armed},
+				Detail: fmt.Sprintf("signing %s panicked: %v", r.name, core.FirstLine(val))}
 			s.stopped = true
 			w.dead = false
-			return
+			return cr
 		}
-		o.diedInCall = true
+		cr.died = true
 	} else if w.dead {
 		core.Fatal("the simulated process death was swallowed by the code under test (recover?)")
 	}
 	w.dead = false
-	if (isCrash && pt != "done" || isFail) && !fired {
+	sig := sigOf()
+	cr.filled = isFilled(sig)
+	cr.valid = cr.filled && fixedPub.VerifyBytes(r.sb, sig)
+	return cr
+}
+
+// finish decides the step st on top of a call that was made with st's armed
+// fault: who got the signature, whether the process is restarted, and what the
+// restart loads.  Several steps that differ only in what happens after the call
+// may be finished on one call, the ones without restart first.
+func (s *sim) finish(cr *callRes, st step) (o obs) {
+	r := reqs[cr.req]
+	pt := faultPoint(st.Fault)
+	isCrash := strings.HasPrefix(st.Fault, "crash@")
+	isFail := strings.HasPrefix(st.Fault, "fail@")
+	want := st.Fault
+	if isCrash && pt == "done" {
+		want = "none"
+	}
+	if want != cr.armed || st.Req != cr.req {
+		core.Fatal("finish: step %v on a call armed with %s", st, cr.armed)
+	}
+	o.points = cr.points
+	if cr.panicV != nil {
+		o.terminal = append(o.terminal, *cr.panicV)
+		o.class = fmt.Sprintf("%s/%s/%s/panic", kindNames[r.Kind], cr.rel, st.Fault)
+		return
+	}
+	o.diedInCall = cr.died
+	if (isCrash && pt != "done" || isFail) && !cr.fired {
 		o.vacuous = true
 	}
-	o.failFired = isFail && fired
-	sig := sigOf()
-	filled := isFilled(sig)
-	valid := filled && fixedPub.VerifyBytes(r.sb, sig)
+	o.failFired = isFail && cr.fired
+	outcome := ""
 	switch {
-	case o.diedInCall:
+	case cr.died:
 		outcome = "died@" + pt
-		if valid {
+		if cr.valid {
 			outcome += "+signature-already-in-callers-object"
 			o.released, o.atDeath = true, true
 		}
-	case err != nil:
+	case cr.err != nil:
 		outcome = "refused"
 		o.refused = true
-		if filled {
+		if cr.filled {
 			outcome = "refused-but-signature-field-filled"
 		}
 		if o.failFired {
 			outcome += "(write-error-reported)"
 		}
-	case !filled:
+	case !cr.filled:
 		outcome = "nil-error-no-signature"
-	case !valid:
+	case !cr.valid:
 		outcome = "returned-signature-not-valid-for-request"
 	case isCrash && pt == "done":
 		// death after the last file operation, before the signature is handed out
 		outcome = "died@done"
-		if len(w.points) == 0 {
+		if len(cr.points) == 0 {
 			outcome += "(no-write)"
 		}
 		o.diedInCall = true
@@ -319,12 +376,16 @@ func (s *sim) exec(st step) (o obs) {
 		}
 	}
 	if o.released {
-		o.durable, o.why = s.durable(r)
+		if !cr.durKnown {
+			cr.durable, cr.why = s.durable(r)
+			cr.durKnown = true
+		}
+		o.durable, o.why = cr.durable, cr.why
 		if !o.durable {
 			outcome += "[no-durable-record]"
 		}
 	}
-	s.logf("%s %s -> %s (err=%v, write points hit: %v)", r.name, st.Fault, outcome, err, w.points)
+	s.logf("%s %s -> %s (err=%v, write points hit: %v)", r.name, st.Fault, outcome, cr.err, cr.points)
 	if o.diedInCall || st.Restart {
 		o.restartAfter = !o.diedInCall
 		after := st.Fault
@@ -340,8 +401,20 @@ func (s *sim) exec(st step) (o obs) {
 			s.logf("  restart: loaded %s", s.c.tuple(s.pv))
 		}
 	}
-	o.class = fmt.Sprintf("%s/%s/%s/%s", kindNames[r.Kind], rel, st.Fault, outcome)
+	o.class = fmt.Sprintf("%s/%s/%s/%s", kindNames[r.Kind], cr.rel, st.Fault, outcome)
 	return
+}
+
+func armedOf(fault string) string {
+	if fault == "crash@done" {
+		return "none"
+	}
+	return fault
+}
+
+// exec performs one step on the real signer and reports what happened.
+func (s *sim) exec(st step) obs {
+	return s.finish(s.call(st.Req, armedOf(st.Fault)), st)
 }
 
 func mkSig(kind string, fault int, consequence string) map[string]string {
@@ -443,13 +516,14 @@ func (s *sim) step(st step) (obs, []viol) {
 // ---------------------------------------------------------------- canonical implementation state
 
 type ctx struct {
-	run       *core.Run
-	pool      chan *worker
-	execs     int64
-	stepsRun  int64
-	classes   *core.Counter
-	samples   *core.Sampler
-	tableSigs [nReq][]byte
+	run        *core.Run
+	pool       chan *worker
+	execs      int64
+	stepsRun   int64
+	selfChecks int64
+	classes    *core.Counter
+	samples    *core.Sampler
+	tableSigs  [nReq][]byte
 }
 
 func (c *ctx) bytesName(b []byte) string {
@@ -505,50 +579,100 @@ func (c *ctx) loadFile(path string) *types.PrivValidator {
 // assumed: a second history reaching the same key is expanded too and every
 // successor observation compared (merge oracle), and the un-deduplicated
 // enumeration at the smaller length must reach exactly the same keys.
-func (s *sim) key() string {
+func (s *sim) key() string { return "mem=" + s.c.tuple(s.pv) + s.filesKey() }
+
+// filesKey is the part of the key that describes the directory.
+func (s *sim) filesKey() string {
 	var b strings.Builder
-	b.WriteString("mem=" + s.c.tuple(s.pv))
 	base := filepath.Base(s.w.path)
-	main := s.c.loadFile(s.w.path)
-	if main == nil {
-		if _, err := os.Stat(s.w.path); err != nil {
-			b.WriteString(" | file=missing")
-		} else {
-			c, _ := ioutil.ReadFile(s.w.path)
-			b.WriteString(" | file=unloadable-" + core.Hash(string(c)))
-		}
-	} else {
-		b.WriteString(" | file=" + s.c.tuple(main))
+	dir := s.view()
+	main := s.c.fileInfo(s.w.path, dir, base)
+	switch {
+	case main.missing:
+		b.WriteString(" | file=missing")
+	case !main.ok:
+		b.WriteString(" | file=unloadable-" + main.hash)
+	default:
+		b.WriteString(" | file=" + main.tuple)
 	}
-	fis, _ := ioutil.ReadDir(s.w.dir)
-	for _, fi := range fis { // sorted by name
-		n := fi.Name()
-		p := filepath.Join(s.w.dir, n)
+	names := make([]string, 0, len(dir))
+	for n := range dir {
+		names = append(names, n)
+	}
+	sort.Strings(names)
+	for _, n := range names {
 		switch n {
 		case base:
 		case base + ".bak", base + ".new":
-			d := s.c.loadFile(p)
+			d := s.c.fileInfo(filepath.Join(s.w.dir, n), dir, n)
 			rel := "unloadable"
 			switch {
-			case d == nil:
-			case main == nil:
-				rel = s.c.tuple(d)
-			case s.c.tuple(d) == s.c.tuple(main):
+			case !d.ok:
+			case !main.ok:
+				rel = d.tuple
+			case d.tuple == main.tuple:
 				rel = "equal-to-file"
-			case hrsOfPV(d) < hrsOfPV(main):
+			case d.hrs < main.hrs:
 				rel = "older-than-file"
-			case hrsOfPV(d) > hrsOfPV(main):
+			case d.hrs > main.hrs:
 				rel = "newer-than-file"
 			default:
 				rel = "same-watermark-other-content"
 			}
 			b.WriteString(" | " + strings.TrimPrefix(n, base) + "=" + rel)
 		default:
-			c, _ := ioutil.ReadFile(p)
-			b.WriteString(" | extra:" + n + "=" + core.Hash(string(c)))
+			b.WriteString(" | extra:" + n + "=" + core.Hash(string(dir[n])))
 		}
 	}
 	return b.String()
+}
+
+// view returns the content of the host's directory.  It is read from disk
+// unless nothing can have changed since the last read: the view is dropped by
+// every call of the signer (in the search, where the start-up check has shown
+// that the hooks cover the signer's writes: by every call that reached a write
+// point) and by every (re)creation of the file.
+func (s *sim) view() map[string][]byte {
+	if s.dirView == nil {
+		v := map[string][]byte{}
+		for _, n := range listDir(s.w.dir) {
+			b, err := ioutil.ReadFile(filepath.Join(s.w.dir, n))
+			if err != nil {
+				core.Fatal("read %s: %v", n, err)
+			}
+			v[n] = b
+		}
+		s.dirView = v
+	}
+	return s.dirView
+}
+
+// fileInfo summarises a signer file for the canonical key; the summary of a
+// given content is computed once (by really loading it) and remembered.
+type finfo struct {
+	missing, ok bool
+	tuple, hash string
+	hrs         int
+}
+
+var finfoCache sync.Map // content -> finfo
+
+func (c *ctx) fileInfo(path string, dir map[string][]byte, name string) finfo {
+	content, present := dir[name]
+	if !present {
+		return finfo{missing: true}
+	}
+	if v, ok := finfoCache.Load(string(content)); ok {
+		return v.(finfo)
+	}
+	fi := finfo{}
+	if d := c.loadFile(path); d != nil {
+		fi.ok, fi.tuple, fi.hrs = true, c.tuple(d), hrsOfPV(d)
+	} else {
+		fi.hash = core.Hash(string(content))
+	}
+	finfoCache.Store(string(content), fi)
+	return fi
 }
 
 func (s *sim) ledgerString() string {
@@ -588,33 +712,32 @@ func cp(b []byte) []byte {
 func (s *sim) snapshot() *snap {
 	sn := &snap{files: map[string][]byte{}, pv: s.pv, address: cp(s.pv.Address), pub: s.pv.PubKey, priv: s.pv.PrivKey, signer: s.pv.Signer,
 		lh: s.pv.LastHeight, lr: s.pv.LastRound, ls: s.pv.LastStep, lsig: s.pv.LastSignature, lsb: cp(s.pv.LastSignBytes), nlog: len(s.log)}
-	fis, _ := ioutil.ReadDir(s.w.dir)
-	for _, fi := range fis {
-		b, err := ioutil.ReadFile(filepath.Join(s.w.dir, fi.Name()))
-		if err != nil {
-			core.Fatal("snapshot: %v", err)
-		}
-		sn.files[fi.Name()] = b
+	for n, b := range s.view() {
+		sn.files[n] = b
 	}
 	return sn
 }
 
 func (s *sim) restore(sn *snap) {
-	fis, _ := ioutil.ReadDir(s.w.dir)
-	for _, fi := range fis {
-		if _, keep := sn.files[fi.Name()]; !keep {
-			os.RemoveAll(filepath.Join(s.w.dir, fi.Name()))
+	cur := s.view()
+	for n := range cur {
+		if _, keep := sn.files[n]; !keep {
+			os.RemoveAll(filepath.Join(s.w.dir, n))
 		}
 	}
 	for n, b := range sn.files {
-		p := filepath.Join(s.w.dir, n)
-		if cur, err := ioutil.ReadFile(p); err == nil && bytes.Equal(cur, b) {
+		if c, ok := cur[n]; ok && bytes.Equal(c, b) {
 			continue
 		}
-		if err := ioutil.WriteFile(p, b, 0600); err != nil {
+		if err := ioutil.WriteFile(filepath.Join(s.w.dir, n), b, 0600); err != nil {
 			core.Fatal("restore: %v", err)
 		}
 	}
+	v := map[string][]byte{}
+	for n, b := range sn.files {
+		v[n] = b
+	}
+	s.dirView = v
 	pv := sn.pv
 	pv.Address, pv.PubKey, pv.PrivKey, pv.Signer = cp(sn.address), sn.pub, sn.priv, sn.signer
 	pv.LastHeight, pv.LastRound, pv.LastStep, pv.LastSignature, pv.LastSignBytes = sn.lh, sn.lr, sn.ls, sn.lsig, cp(sn.lsb)
